@@ -30,9 +30,43 @@ const (
 	// layered) by their marshaled form, i.e. as decimal text ("10" < "100" < "9")
 	KInt32  = "int32"
 	KUint16 = "uint16"
+	// KNamed: a user Key type whose underlying type is a plain integer (its own Layer and Order methods must be used,
+	// not the rules for the built-in integer it is made of)
+	KNamed = "namedint"
 )
 
-var KeyKinds = []string{KInt, KInt64, KUint, KUint64, KString, KBytes, KLK, KStruct, KInt32, KUint16}
+// NK is a named integer implementing mast.Key: ordered DESCENDING by value, layer from a small table.
+type NK int
+
+var nkLayers = [12]uint8{0, 0, 0, 1, 0, 0, 2, 0, 1, 0, 0, 3}
+
+func nkLayer(k NK) uint8 {
+	x := int(k) % 12
+	if x < 0 {
+		x += 12
+	}
+	return nkLayers[x]
+}
+func (k NK) Layer(branchFactor uint) uint8 { return nkLayer(k) }
+func (k NK) Order(o mast.Key) int {
+	ok := o.(NK)
+	if k > ok {
+		return -1
+	} else if k < ok {
+		return 1
+	}
+	return 0
+}
+func (k NK) RefLayer() uint8 { return nkLayer(k) }
+func (k NK) RefRank() int64  { return -int64(k) }
+
+// keep the old block end marker
+var _ = KNamed
+var (
+	_ mast.Key = NK(0)
+)
+
+var KeyKinds = []string{KInt, KInt64, KUint, KUint64, KString, KBytes, KLK, KStruct, KInt32, KUint16, KNamed}
 
 const (
 	VInt    = "int"
@@ -355,6 +389,8 @@ func (c Config) ZeroKey() interface{} {
 		return int32(0)
 	case KUint16:
 		return uint16(0)
+	case KNamed:
+		return NK(0)
 	}
 	panic("bad key kind " + c.Key)
 }
@@ -510,6 +546,8 @@ func (c Config) buildBigPool() []interface{} {
 			out = append(out, int32(i-c.Big/3))
 		case KUint16:
 			out = append(out, uint16(i*3))
+		case KNamed:
+			out = append(out, NK(i-c.Big/3))
 		default:
 			panic("bad key kind for a big pool: " + c.Key)
 		}
@@ -606,6 +644,8 @@ func (c Config) buildPool() []interface{} {
 			return int32(i*i/3 + i)
 		case KUint16:
 			return uint16(i*37 + i/5)
+		case KNamed:
+			return NK(i*5 - 40)
 		}
 		panic("bad key kind")
 	}
